@@ -93,6 +93,13 @@ Proof.
   unfold cc_grant. c14_break; [reflexivity|].
   seq_auth authenticated_words; c14_go; seq_leaf.
 Qed.
+Lemma jwt_bearer_client_words w cr : wp anyR (jwt_bearer_client w cr) (Qwords cg_words).
+Proof. unfold jwt_bearer_client, authenticated, get_client, Qwords. c14_go; reflexivity. Qed.
+Lemma jwt_bearer_grant_seq w n now r : wp anyR (jwt_bearer_grant w n now r) (Qseq (flow_re (OpToken GJwtBearer r))).
+Proof.
+  unfold jwt_bearer_grant. c14_break; [reflexivity|].
+  seq_auth jwt_bearer_client_words; c14_go; seq_leaf.
+Qed.
 Lemma ciba_grant_seq w n now r : wp anyR (ciba_grant w n now r) (Qseq (flow_re (OpToken GCiba r))).
 Proof.
   unfold ciba_grant. c14_break; [reflexivity|].
@@ -186,7 +193,7 @@ Proof.
   - apply continue_auth_seq.
   - apply push_auth_seq.
   - apply cc_grant_seq. - apply code_grant_seq. - apply refresh_grant_seq.
-  - reflexivity. - reflexivity.
+  - reflexivity. - apply jwt_bearer_grant_seq.
   - apply ciba_grant_seq.
   - apply introspect_seq.
   - apply revoke_seq.
